@@ -18,7 +18,7 @@ use crate::proto::{Ctx, attrs};
 pub fn meta() -> Meta {
     Meta {
         level: "fault_enumeration",
-        rule: "for each kind (bdd, bcdd, zbdd; mtbdd with the terminal store as swept resource) and each scripted operation on 4-variable operands (5 fixed operand sets, thorough: 32; on some of them a collection is requested before the first variable / before the first node exists; var creation / operand construction, and, xor, ite, not, exists, apply_exists, substitute, restrict, pick_cube_dd, pick_cube_dd_set, zbdd union/change/subset1/not/ite, mtbdd add/mul, DDDMP import in ASCII and binary mode, set_var_order, zbdd add_vars): a fresh manager for EVERY inner-node capacity c = 0 .. B+m+2 (B = nodes of ballast + operands, m = nodes the operation allocates on an ample manager), 1 worker and (for and/ite/exists) 2 workers with split depth 2. Outcome must be Ok with the model's result or Err(OutOfMemory); after Err: full audit incl. exact reference counts with the harness's live handles, all earlier handles keep their tables, gc leaves exactly the reachable nodes; then the ballast is dropped, gc, and the same operation must succeed with the model's result. `t1x`: the whole run is issued from inside a session of another manager. Panic, abort and hang are violations. Non-trivial: runs in which the operation itself (not the operand construction) failed.",
+        rule: "for each kind (bdd, bcdd, zbdd; mtbdd with the terminal store as swept resource) and each scripted operation on 4-variable operands (5 fixed operand sets, thorough: 32; on some of them a collection is requested before the first variable / before the first node exists; var creation / operand construction, and, xor, ite, not, exists, apply_exists, substitute, restrict, pick_cube_dd, pick_cube_dd_set, zbdd union/change/subset1/not/ite, mtbdd add/sub/mul/div/min/max, mtbdd ite for 3 conditions, mtbdd restrict for 12 literal cubes, DDDMP import in ASCII and binary mode, set_var_order, zbdd add_vars): a fresh manager for EVERY inner-node capacity c = 0 .. B+m+2 (B = nodes of ballast + operands, m = nodes the operation allocates on an ample manager), 1 worker and (for and/ite/exists) 2 workers with split depth 2. Outcome must be Ok with the model's result or Err(OutOfMemory); after Err: full audit incl. exact reference counts with the harness's live handles, all earlier handles keep their tables, gc leaves exactly the reachable nodes; then the ballast is dropped, gc, and the same operation must succeed with the model's result. `t1x`: the whole run is issued from inside a session of another manager. Panic, abort and hang are violations. Non-trivial: runs in which the operation itself (not the operand construction) failed.",
         assumptions: vec![
             "capacities below 100 nodes disable the background collector, so which allocation fails is determined by c alone (single-threaded runs)".into(),
             "index backend only: the pointer backend has no capacity limit".into(),
@@ -69,7 +69,7 @@ pub fn shards(tier: &str) -> Vec<String> {
     }
     v.push("zbdd:reorder:t1".into());
     v.push("zbdd:add_vars:t1".into());
-    for op in ["add", "mul", "terminals_add", "terminals_constant", "terminals_var", "terminals_reuse"] {
+    for op in ["add", "sub", "mul", "div", "min", "max", "ite", "restrict", "terminals_add", "terminals_constant", "terminals_var", "terminals_reuse"] {
         v.push(format!("mtbdd:{op}:t1"));
     }
     let _ = tier;
@@ -618,14 +618,48 @@ fn mtbdd_script(ctx: &mut Ctx, op: &str) {
     }
     ctx.group(&format!("mtbdd {op}"), |ctx| {
         let ta: Vec<i64> = vec![0, 1, 2, 3, 4, 5, 6, 7];
-        let tb: Vec<i64> = vec![7, 5, 3, 1, 0, 2, 4, 6];
-        let exp: Vec<i64> = match op.as_str() {
-            "add" | "terminals_add" => ta.iter().zip(&tb).map(|(a, b)| a + b + 100).collect(),
-            "mul" => ta.iter().zip(&tb).map(|(a, b)| (a + 100) * b).collect(),
-            _ => vec![],
+        let tb0: Vec<i64> = vec![7, 5, 3, 1, 0, 2, 4, 6];
+        // the divisor must not contain 0 (the quotient is only pinned down for non-zero divisors here)
+        let tb: Vec<i64> = if op == "div" { tb0.iter().map(|b| b + 1).collect() } else { tb0 };
+        let fa: Vec<i64> = ta.iter().map(|x| x + 100).collect();
+        // third operands: literal cubes for restrict (pos mask, neg mask over the 3 variables; the variable
+        // numbering of tables is index bit v = value of variable v), 0-1-valued conditions for ite
+        let thirds: Vec<(String, Option<Vec<i64>>)> = match op.as_str() {
+            "restrict" => [(4u32, 0u32), (0, 4), (2, 0), (0, 2), (4, 2), (2, 4), (6, 0), (0, 6), (1, 0), (1, 4), (0, 5), (3, 4)]
+                .iter()
+                .map(|&(p, n)| (format!("+{p:03b}-{n:03b}"), Some((0..8u32).map(|a| ((a & p) == p && (a & n) == 0) as i64).collect())))
+                .collect(),
+            "ite" => vec![
+                ("c=69".into(), Some(vec![0, 1, 1, 0, 1, 0, 0, 1])),
+                ("c=x2".into(), Some(vec![0, 0, 0, 0, 1, 1, 1, 1])),
+                ("c=x0".into(), Some(vec![0, 1, 0, 1, 0, 1, 0, 1])),
+            ],
+            _ => vec![("".into(), None)],
         };
         let terminals_swept = op.starts_with("terminals");
         let max = if terminals_swept { 30 } else { 40 };
+        for (tname, third) in &thirds {
+        let exp: Vec<i64> = match op.as_str() {
+            "add" | "terminals_add" => fa.iter().zip(&tb).map(|(a, b)| a + b).collect(),
+            "sub" => fa.iter().zip(&tb).map(|(a, b)| a - b).collect(),
+            "mul" => fa.iter().zip(&tb).map(|(a, b)| a * b).collect(),
+            "div" => fa.iter().zip(&tb).map(|(a, b)| a / b).collect(),
+            "min" => fa.iter().zip(&tb).map(|(a, b)| *a.min(b)).collect(),
+            "max" => fa.iter().zip(&tb).map(|(a, b)| *a.max(b)).collect(),
+            "ite" => {
+                let c = third.as_ref().unwrap();
+                (0..8).map(|i| if c[i] == 1 { fa[i] } else { tb[i] }).collect()
+            }
+            "restrict" => {
+                // the cube's table is 1 exactly on the assignments that agree with it: the restricted function
+                // reads f at the assignment with the cube's variables overwritten
+                let c = third.as_ref().unwrap();
+                let any = (0..8usize).find(|&i| c[i] == 1).unwrap();
+                let fixed: usize = (0..3).filter(|&v| (0..8usize).all(|i| c[i] == 0 || ((i >> v) & 1) == ((any >> v) & 1))).map(|v| 1usize << v).sum();
+                (0..8usize).map(|i| fa[(i & !fixed) | (any & fixed)]).collect()
+            }
+            _ => vec![],
+        };
         for c in 0..=max {
             ctx.count("evaluations", 1);
             crate::proto::throttle_threads();
@@ -654,12 +688,28 @@ fn mtbdd_script(ctx: &mut Ctx, op: &str) {
                     ctx.count("nontrivial", 1);
                 }
             } else {
-                let a = HMtbdd::build(&mref, &ta.iter().map(|x| x + 100).collect::<Vec<_>>());
+                let a = HMtbdd::build(&mref, &fa);
                 let b = HMtbdd::build(&mref, &tb);
-                if let (Ok(a), Ok(b)) = (a, b) {
-                    let r = if op == "mul" { a.mul(&b) } else { a.add(&b) };
-                    live.push((a, ta.iter().map(|x| x + 100).collect()));
+                let t3 = match third {
+                    Some(t) => HMtbdd::build(&mref, t).map(Some),
+                    None => Ok(None),
+                };
+                if let (Ok(a), Ok(b), Ok(t3)) = (a, b, t3) {
+                    let r = match op.as_str() {
+                        "mul" => a.mul(&b),
+                        "sub" => a.sub(&b),
+                        "div" => a.div(&b),
+                        "min" => PseudoBooleanFunction::min(&a, &b),
+                        "max" => PseudoBooleanFunction::max(&a, &b),
+                        "ite" => t3.as_ref().unwrap().ite(&a, &b),
+                        "restrict" => a.restrict(t3.as_ref().unwrap()),
+                        _ => a.add(&b),
+                    };
+                    live.push((a, fa.clone()));
                     live.push((b, tb.clone()));
+                    if let (Some(f3), Some(t)) = (t3, third) {
+                        live.push((f3, t.clone()));
+                    }
                     match r {
                         Ok(r) => {
                             ctx.outcome("ok");
@@ -699,10 +749,11 @@ fn mtbdd_script(ctx: &mut Ctx, op: &str) {
             for (class, msg) in bad {
                 ctx.viol(
                     attrs(&[("kind", "mtbdd"), ("op", &op), ("class", &class)]),
-                    json!({"kind": "mtbdd", "op": op, "node_capacity": nodes, "terminal_capacity": terms, "a": ta, "b": tb}),
-                    &format!("mtbdd {op} with node capacity {nodes}, terminal capacity {terms}: {msg}"),
+                    json!({"kind": "mtbdd", "op": op, "third": tname, "node_capacity": nodes, "terminal_capacity": terms, "a": fa, "b": tb}),
+                    &format!("mtbdd {op} {tname} with node capacity {nodes}, terminal capacity {terms}: {msg}"),
                 );
             }
+        }
         }
     });
 }
